@@ -15,6 +15,8 @@ Viol(ev) ==
     \cup (IF ~ev.panic /\ ev.sendfail > 0 /\ ev.stall_ms < 200 THEN {"SendSurvives"} ELSE {})
     \* the same peer after total expiry: traffic must flow again
     \cup (IF ~ev.panic /\ ev.post = "resume" /\ ev.resume_fail > 0 /\ ev.stall_ms < 200 THEN {"SendSurvives"} ELSE {})
+    \* a Send that waited through the rest of the outage completes once the network has healed
+    \cup (IF ~ev.panic /\ ev.post = "pending" /\ ev.pending_fail > 0 /\ ev.stall_ms < 200 THEN {"SendSurvives"} ELSE {})
     \* another key in the peer's place after total expiry: nothing handed to it, nothing accepted from it, binding unchanged
     \cup (IF ~ev.panic /\ ev.post = "stranger" /\ (ev.to_stranger > 0 \/ ev.from_stranger > 0 \/ ev.rk_changed)
           THEN {"Continuity"} ELSE {})
